@@ -160,6 +160,34 @@ func runC08(c *Ctx) {
 	}
 	scan(casFns, "bufcas")
 
+	// (3b) the digest closure consults no identity or targeting state of the module (added after seeded change C08-c)
+	c.Rule("DIGEST-INPUTS", "the digest closure of a module reads none of the module's identity or targeting members", 1)
+	if fr := p.Func("private/bufpkg/bufmodule", "newGetDigestFuncForModuleAndDigestType"); fr == nil {
+		c.Fail("DIGEST-INPUTS", "anchor", token.NoPos, "newGetDigestFuncForModuleAndDigestType not found")
+	} else {
+		denied := map[string]string{
+			"isTarget": "targeting", "IsTarget": "targeting", "moduleFullName": "identity", "FullName": "identity", "commitID": "identity", "CommitID": "identity",
+			"description": "identity", "Description": "identity", "bucketID": "identity", "BucketID": "identity", "OpaqueID": "identity", "moduleSet": "context of the set (only ModuleDeps may consult it)",
+			"ModuleSet": "context of the set",
+		}
+		info := fr.Info()
+		var bad []string
+		seen := map[string]bool{}
+		ast.Inspect(fr.Decl.Body, func(n ast.Node) bool {
+			sel, ok := n.(*ast.SelectorExpr)
+			if !ok || namedName(info.TypeOf(sel.X)) != "module" {
+				return true
+			}
+			seen[sel.Sel.Name] = true
+			if why, ok := denied[sel.Sel.Name]; ok {
+				bad = append(bad, sel.Sel.Name+" ("+why+")")
+			}
+			return true
+		})
+		c.Ob("DIGEST-INPUTS", "newGetDigestFuncForModuleAndDigestType", fr.Decl.Pos(), len(bad) == 0 && len(seen) >= 4, true,
+			"module members read by the digest closure: %v; denied ones: %v (the digest must be the same whether or not the module is a target, whatever it is called, whichever set it is in)", sortedBoolKeys(seen), bad)
+	}
+
 	// (4) text agreement
 	c08Text(c, pkC)
 	for _, pk := range []*packages.Package{pkC, pkM} {
